@@ -80,7 +80,13 @@ def _check_one_signature(ctx, keys, case, d, zb, q, first):
     """Returns the canonical recovered nonce, or None when an explicit nonce was refused."""
     from ref import ec
     n = ec.N
-    z = int.from_bytes(zb, 'big')
+    if len(zb) > 32:
+        # documented: "if unhashed transaction or message is provided the double_sha256 hash of message will be
+        # calculated" - anything longer than a hash is a message
+        from ref.hashes import dsha256
+        z = int.from_bytes(dsha256(zb), 'big')
+    else:
+        z = int.from_bytes(zb, 'big')
     ht = case.get('ht', 1)
     explicit = case.get('k') is not None
     kform = case.get('keyform', 'Key') if first else 'Key'
@@ -127,7 +133,9 @@ def _check_one_signature(ctx, keys, case, d, zb, q, first):
         raise Discrepancy('sign.raw64', '%s: bytes()=%s is not r||s' % (where, raw.hex()), case)
     # determinism: a second call on fresh objects
     try:
-        sig2 = _sign_once(keys, case, d, zb, 'Key' if kform != 'Key' else 'hex')
+        # (other key form and other message form: the signature is a function of key and message only)
+        other = dict(case, zform='hex' if case.get('zform', 'bytes') == 'bytes' else 'bytes')
+        sig2 = _sign_once(keys, other, d, zb, 'Key' if kform != 'Key' else 'hex')
         der2 = bytes(sig2.as_der_encoded())
     except Exception as e:
         raise Discrepancy('sign.second_call.raises', '%s: second call raised %r' % (where, e), case)
@@ -605,7 +613,10 @@ def strategies(ctx):
     from vlib import gen
     n = ec.N
     half = _half()
-    hexd = gen.digests().map(bytes.hex)
+    # digests, and (one in five) unhashed messages of 33..100 bytes which the library documents to hash itself
+    hexd = st.one_of(gen.digests(), gen.digests(), gen.digests(), gen.digests(),
+                     st.sampled_from([33, 40, 48, 63, 64, 65, 80, 100]).flatmap(
+                         lambda n: st.binary(min_size=n, max_size=n))).map(bytes.hex)
     explicit_k = st.one_of(
         st.sampled_from([1, 2, 3, half, half + 1, n - 1, n - 2, n + 1, n + 2, (1 << 256) - 1, n]),
         st.integers(1, n - 1), st.integers(1, 1000))
@@ -636,7 +647,7 @@ def strategies(ctx):
     reuse = st.fixed_dictionaries({
         'kind': st.just('reuse'),
         'd': gen.secrets().map(_h), 'd2': st.integers(1, 1000).map(_h),
-        'zs': st.lists(hexd, min_size=2, max_size=3, unique=True),
+        'zs': st.lists(gen.digests().map(bytes.hex), min_size=2, max_size=3, unique=True),
         'origin': st.sampled_from(['sign', 'parse', 'ints']),
         'steps': st.lists(st.fixed_dictionaries({'z': st.integers(0, 2), 'pk': st.sampled_from(['right', 'right', 'wrong', 'stored']),
                                                  'entry': st.sampled_from(['method', 'fn'])}), min_size=2, max_size=5),
